@@ -69,6 +69,10 @@ class Conduct(core.Scenario):
             srv.append(core.Action('GET<-open', lambda s: s.world.answer(s.world.server.pending_reqs('GET')[0], 200, '0' + json.dumps(opn) + piggy), en_get))
             if self.mode == 'upgrade_refused':
                 srv.append(core.Action('WS<-refuse', lambda s: s.world.ws_decide(s.world.server.pending_ws()[0], False), en_ws))
+            elif self.mode in ('upgrade_unreachable', 'upgrade_timeout'):
+                # the upgrade connection fails with an OSError that is not a ConnectionError (no route to host, socket timeout)
+                how = self.mode[len('upgrade_'):]
+                srv.append(core.Action('WS<-' + how, lambda s: s.world.ws_decide(s.world.server.pending_ws()[0], False, how), en_ws))
             elif self.mode.startswith('upgrade'):
                 srv.append(core.Action('WS<-accept', lambda s: s.world.ws_decide(s.world.server.pending_ws()[0], True), en_ws))
                 ans = {'upgrade_ok': '3probe', 'upgrade_wrong': '3other', 'upgrade_silent': None}[self.mode]
@@ -265,7 +269,7 @@ class Conduct(core.Scenario):
                 self.flag('text_wrong_encoding', 'text/JSON payload went out as %s' % k, trigger=trig)
         # ---- upgrade only through the probe handshake
         frames = [(k, d) for s in w.server.wss for (_, _, k, d) in s.sent]
-        if self.mode.startswith('upgrade') and self.mode != 'upgrade_refused':
+        if self.mode.startswith('upgrade') and self.mode not in ('upgrade_refused', 'upgrade_unreachable', 'upgrade_timeout'):
             first = [d for k, d in frames[:1]]
             if first != ['2probe']:
                 self.flag('upgrade_without_probe', 'first frame on the upgrade socket: %r' % first, trigger=trig)
@@ -493,6 +497,10 @@ def param_list(ctx):
             for sq in (['msg'], ['ping'], ['pingx', 'msg'], ['burst']):
                 for ns in (1, 2):
                     ps.append({'impl': impl, 'mode': mode, 'pushes': sq, 'nsend': ns, 'stall': True})
+        if impl == 'sync':
+            for mode in ('upgrade_unreachable', 'upgrade_timeout'):
+                for sq in ([], ['pingx', 'msg']):
+                    ps.append({'impl': impl, 'mode': mode, 'pushes': sq, 'nsend': 3})
         for mode in ('upgrade_wrong', 'upgrade_silent', 'upgrade_refused'):
             for sq in ([], ['burst'], ['pingx', 'msg']):
                 for ns in (0, 3):
